@@ -28,6 +28,9 @@ class AbsFrags:
             s.elems[k] = (idx, s.mk(len(s.elems)))
         return s.elems[k][1]
 
+    def abs_len(s):
+        return s.n
+
 
 class AbsSub:
     """&fragments[a..b] with symbolic bounds"""
@@ -53,12 +56,32 @@ class AbsEnumIter:
         return NONE()
 
 
+class AbsMinima:
+    """Vec<(usize, f64)> of symbolic length; entry j is created on demand by mk(j) (which states the contract)"""
+
+    def __init__(s, I, length, mk):
+        s.I = I
+        s.length = length
+        s.mk = mk
+        s.elems = {}
+
+    def abs_len(s):
+        return s.length
+
+    def elem(s, idx):
+        k = idx.get_id() if is_sym(idx) else idx
+        if k not in s.elems:
+            s.elems[k] = s.mk(idx)
+        return s.elems[k]
+
+
 class AbsLines:
     """Vec<&[T]> of symbolic length k; pushes made during the step are recorded"""
 
     def __init__(s, k):
         s.k0 = k
         s.pushed = []
+        s.reversed = 0
 
     def length(s):
         return v_add(s.k0, len(s.pushed))
@@ -136,6 +159,13 @@ class KernelModels(Models):
         wrap(r'^Vec::push$', k_push)
 
         def k_index(I, s, r):
+            if isinstance(deref(s), AbsMinima):
+                s = deref(s)
+                if is_sym(r) or isinstance(r, int):
+                    if not I.branch(v_lt(r, s.length)):
+                        raise Panic('index out of bounds')
+                    return Ptr([s.elem(r)], 0)
+                raise Unsupported('kernel: index kind on minima')
             if isinstance(s, AbsFrags):
                 r = deref(r)
                 nm = r.name
@@ -150,6 +180,19 @@ class KernelModels(Models):
                 return AbsSub(s, a, b)
             return None
         wrap(r'^<(Vec<.*>|\[.*\]) as Index(Mut)?<.*>>::index(_mut)?$', k_index)
+
+        def k_deref_mut(I, v):
+            if isinstance(deref(v), AbsLines):
+                return deref(v)
+            return None
+        wrap(r'^<Vec<.*> as DerefMut>::deref_mut$', k_deref_mut)
+
+        def k_reverse(I, v):
+            if isinstance(deref(v), AbsLines):
+                deref(v).reversed += 1
+                return Agg('()', [])
+            return None
+        wrap(r'^core::slice::<impl \[.*\]>::reverse$', k_reverse)
 
         def k_get(I, s, i):
             if isinstance(s, AbsWidths):
@@ -192,3 +235,15 @@ def find_loop_head(f, iter_local):
                 if st[0] == 'assign' and st[2][0] == 'ref' and st[2][1][0] == iter_local:
                     return bb
     raise Unsupported('kernel: loop head of %s not found' % f.name)
+
+
+def find_block(f, callee_rx, local=None):
+    """block whose terminator calls a function matching callee_rx and (optionally) whose statements read `local`"""
+    import re
+    compile_fn(f)
+    rx = re.compile(callee_rx)
+    for bb, (stmts, term, raw) in f.blocks.items():
+        if term[0] == 'call' and rx.search(term[2]):
+            if local is None or re.search(r'\b_%d\b' % local, ' '.join(raw)):
+                return bb
+    raise Unsupported('kernel: block calling %s not found in %s' % (callee_rx, f.name))
